@@ -33,6 +33,7 @@ def cases(tier, seed):
     yield "C17|sequential|fixed-pipelines", {"kind": "fixed", "tier": tier}
     for n in range(1, 5):
         yield f"C17|branching|n={n}", {"kind": "branching", "n": n, "tier": tier}
+    yield "C17|branching|histories", {"kind": "branching-bfs", "tier": tier}
     yield "C17|feedback", {"kind": "feedback", "tier": tier}
     for u in range(1, 5):
         yield f"C17|mac|users={u}", {"kind": "mac", "users": u, "tier": tier}
@@ -42,11 +43,11 @@ def cases(tier, seed):
 
 
 def component_of(p):
-    return {"parallel": "parallel", "seq-bfs": "sequential", "fixed": "sequential", "branching": "branching", "feedback": "feedback", "mac": "mac", "wz": "wyner-ziv", "tlc": "parallel", "parallel-many": "parallel"}[p["kind"]]
+    return {"parallel": "parallel", "seq-bfs": "sequential", "fixed": "sequential", "branching": "branching", "branching-bfs": "branching", "feedback": "feedback", "mac": "mac", "wz": "wyner-ziv", "tlc": "parallel", "parallel-many": "parallel"}[p["kind"]]
 
 
 def execute(p, res):
-    {"parallel": parallel_case, "seq-bfs": seq_bfs_case, "fixed": fixed_case, "branching": branching_case, "feedback": feedback_case,
+    {"parallel": parallel_case, "seq-bfs": seq_bfs_case, "fixed": fixed_case, "branching": branching_case, "branching-bfs": branching_bfs_case, "feedback": feedback_case,
      "mac": mac_case, "wz": wz_case, "tlc": tlc_case, "parallel-many": parallel_many_case}[p["kind"]](p, res)
 
 
@@ -228,12 +229,14 @@ def seq_bfs_case(p, res):
 
     def run(s):
         del s.sink.items[:]
+        s.ran = getattr(s, "ran", 0) + 1
         out = s.model(5, "a", k=2)
         return ("run", (out, list(s.sink.items)))
     ops.append(("run", run))
 
     def canon(s):
-        return tuple(getattr(st, "sid", "?") for st in s.model.steps)
+        # "has been run" is part of the state: a pipeline that memoises something at its first run must not hide behind state merging
+        return (tuple(getattr(st, "sid", "?") for st in s.model.steps), min(getattr(s, "ran", 0), 1))
 
     def on_tr(names, s, obs):
         v = lambda clause, d: res.viol("sequential", cfg, clause, f"history {list(names)}: {d}", {"history": list(names)})  # noqa: E731
@@ -241,8 +244,8 @@ def seq_bfs_case(p, res):
             v("raises", f"{type(obs).__name__}: {obs}")
             return
         kind, val = obs
-        if canon(s) != tuple(s.ref):
-            v("order", f"steps {canon(s)} but the list model has {s.ref}")
+        if canon(s)[0] != tuple(s.ref):
+            v("order", f"steps {canon(s)[0]} but the list model has {s.ref}")
         if kind == "remove":
             ok, raised = val
             if ok == raised:
@@ -371,6 +374,136 @@ def fixed_case(p, res):
         if ran not in (decl, alt):
             res.viol("sequential", f"ChannelCodeModel,roles={''.join(map(str, roles))}", "exactly-once", f"declared stage objects (encoder, constraint, modulator, channel, demodulator, decoder) = {decl}, stages ran {ran}")
     res.sample({"pipelines": ["DeepJSCCModel", "ChannelCodeModel"]})
+
+
+# ----------------------------------------------------------------------------- branching: histories of add / remove / default / inspect / run
+def branching_bfs_case(p, res):
+    """every history (depth 5 [6]) of add_branch(name, truth, model), remove_branch(name), set_default_branch, get_branch(name) and run on one
+    BranchingModel object, against an ordered-dictionary model: the run takes exactly the first registered branch whose condition holds NOW
+    (a name that was removed and registered again carries its new condition and model, and comes last)"""
+    from kaira.models.base import BaseModel
+    from kaira.models.generic.branching import BranchingModel
+    depth = 5 if p["tier"] == "quick" else 6
+
+    class M(BaseModel):
+        def __init__(self, tag, sink):
+            super().__init__()
+            self.tag, self.sink = tag, sink
+
+        def forward(self, x, *a, **k):
+            self.sink.items.append((self.tag, x, a, tuple(sorted(k.items()))))
+            return ("out", self.tag, x)
+
+    class Sys:
+        def __init__(self):
+            self.sink = Sink()
+            self.model = BranchingModel()
+            self.ref = []            # [(name, truth, tag)] in registration order
+            self.default = None
+            self.serial = 0
+            self.touched = frozenset()   # names EVER looked at (run / get_branch), also after their removal: part of the state, so that an
+                                         # implementation remembering earlier look-ups cannot hide behind state merging
+    ops = []
+    for name in ("a", "b"):
+        for truth in (True, False):
+            def add(s, name=name, truth=truth):
+                s.serial += 1
+                tag = f"{name}{s.serial}{'T' if truth else 'F'}"
+                dup = any(r[0] == name for r in s.ref)
+                try:
+                    s.model.add_branch(name, (lambda x, t=truth: t), M(tag, s.sink))
+                    raised = False
+                except ValueError:
+                    raised = True
+                if not dup:
+                    s.ref.append((name, truth, tag))
+                return ("add", (dup, raised))
+            ops.append((f"add_branch({name},{'T' if truth else 'F'})", add))
+
+        def rem(s, name=name):
+            have = any(r[0] == name for r in s.ref)
+            try:
+                s.model.remove_branch(name)
+                raised = False
+            except KeyError:
+                raised = True
+            s.ref = [r for r in s.ref if r[0] != name]
+            return ("remove", (have, raised))
+        ops.append((f"remove_branch({name})", rem))
+
+        def get(s, name=name):
+            have = [r for r in s.ref if r[0] == name]
+            if have:
+                s.touched = s.touched | {name}
+            try:
+                cond, model = s.model.get_branch(name)
+                return ("get", (have, False, bool(cond(0)), getattr(model, "tag", "?")))
+            except KeyError:
+                return ("get", (have, True, None, None))
+        ops.append((f"get_branch({name})", get))
+
+    def setdef(s):
+        s.serial += 1
+        s.default = f"d{s.serial}"
+        s.model.set_default_branch(M(s.default, s.sink))
+        return ("default", None)
+    ops.append(("set_default_branch", setdef))
+
+    def run(s):
+        del s.sink.items[:]
+        s.touched = s.touched | {r[0] for r in s.ref}
+        try:
+            out = s.model(9, True, "a", k=1)
+        except RuntimeError as e:
+            return ("run", (None, [], str(e)))
+        return ("run", (out, list(s.sink.items), None))
+    ops.append(("run", run))
+
+    def canon(s):
+        return (tuple((n, getattr(m, "tag", "?")) for n, (c, m) in s.model.branches.items()), getattr(s.model.default_branch, "tag", None),
+                bfs.canon_value({k: v for k, v in vars(s.model).items() if k not in bfs.SKIP and k not in ("branches", "default_branch", "training")}),
+                tuple(s.ref), s.default, tuple(sorted(s.touched)))
+
+    def on_tr(names, s, obs):
+        cfg = "bfs"
+        v = lambda clause, d: res.viol("branching", cfg, clause, f"history {list(names)}: {d}", {"history": list(names)})  # noqa: E731
+        if isinstance(obs, Exception):
+            v("raises", f"{type(obs).__name__}: {obs}")
+            return
+        kind, val = obs
+        have = tuple((n, getattr(m, "tag", "?")) for n, (c, m) in s.model.branches.items())
+        if have != tuple((r[0], r[2]) for r in s.ref) or getattr(s.model.default_branch, "tag", None) != s.default:
+            v("first-match", f"registered branches {have} / default {getattr(s.model.default_branch, 'tag', None)} but the ordered-dictionary model has {s.ref} / {s.default}")
+        if kind == "add" and val[0] != val[1]:
+            v("first-match", f"add_branch: name already registered={val[0]} but ValueError raised={val[1]}")
+        if kind == "remove" and val[0] == val[1]:
+            v("first-match", f"remove_branch: name registered={val[0]} but KeyError raised={val[1]}")
+        if kind == "get":
+            have_, raised, truth, tag = val
+            if bool(have_) == raised:
+                v("first-match", f"get_branch: name registered={bool(have_)} but KeyError raised={raised}")
+            elif have_ and (truth, tag) != (have_[0][1], have_[0][2]):
+                v("first-match", f"get_branch returned (condition -> {truth}, model {tag}) but the registered branch is {have_[0]}")
+        if kind == "run":
+            out, log, err = val
+            first = next((r for r in s.ref if r[1]), None)
+            want = (first[2], first[0]) if first else ((s.default, "default") if s.default else None)
+            if want is None:
+                if err is None:
+                    v("first-match", f"no condition holds and no default: returned {out} instead of raising")
+            elif err is not None:
+                v("first-match", f"RuntimeError {err!r} but branch {want} should run")
+            elif [e[0] for e in log] != [want[0]]:
+                v("first-match" if len(log) == 1 else "exactly-once", f"models run {[e[0] for e in log]}, expected exactly [{want[0]}] (registered {s.ref}, default {s.default})")
+            elif out != (("out", want[0], 9), want[1]):
+                v("first-match", f"returned {out}, expected ({('out', want[0], 9)}, '{want[1]}')")
+            elif log[0][2] != ("a",) or log[0][3] != (("k", 1),):
+                v("args-forwarded", f"branch model called with {log[0][2:]}")
+            res.outcome(repr(out))
+    st = bfs.explore(Sys, ops, depth, canon, on_tr)
+    res.ev(st["transitions"], nontrivial=st["transitions"], states=st["states"], transitions=st["transitions"])
+    res.bump("bfs_states", st["states"])
+    res.sample({"class": "BranchingModel", "depth": depth, "states": st["states"], "transitions": st["transitions"]})
 
 
 # ----------------------------------------------------------------------------- branching
